@@ -781,3 +781,9 @@ def _clones(ctx, R):
 
 
 RULES.append(("C11.CLONE", "snapshots and copies are complete: Clone of states, commands, areas and numbers copies every field (shared with C01.CLONE)", _clones))
+
+
+# rules of other properties re-run under this property's name; resolved by rules/main.py (see rules/share.py)
+DEFERRED_BUNDLES = [
+    {'prop': 'C11', 'tag': 'INT', 'module': 'p_c05', 'only': ('CTOR', 'DIVLESS', 'LIMBS', 'NORMALISE', 'CONSTS'), 'skip': (), 'why': 'the audited panic sites of the numeric core (NUMERIC table: limb vectors are never empty, result vectors are long enough) rest on the lengths these rules decide'},
+]
